@@ -53,9 +53,9 @@ def count_nested(df, nested, by=None, join=True) -> NestedFrame:
     """
 
     if by is None:
-        field_to_len = df[nested].nest.fields[0]
-        counts = df[nested].nest.to_lists().apply(lambda x: len(x[field_to_len]), axis=1)
-        counts.name = f"n_{nested}"  # update name directly (rename causes issues downstream)
+        # list_lengths counts a missing row as 0 and also works for a frame without rows
+        # (DataFrame.apply(axis=1) on an empty frame returns a frame, not a Series)
+        counts = pd.Series(df[nested].nest.list_lengths, index=df.index, name=f"n_{nested}", dtype="int64")
     else:
         # this may be able to be sped up using tolists() as well
         # a missing nested value has no records: it gets an empty count instead of failing
